@@ -1,6 +1,6 @@
 """C02 - Server answers every request with its own result (no cross-talk)."""
 from checks import servers
-from checks.common import swarm
+from checks.common import swarm, exc_choice
 
 ID = 'C02'
 LEVEL = 'exploration'
@@ -56,7 +56,7 @@ def gen(rng, tier):
     if allx and rng.random() < 0.6:
         for lf in rng.sample(lvs, min(len(lvs), rng.choice([1, 1, 2]))):
             key = 'pre_fail' if rng.random() < 0.2 else 'fail'
-            lf[key] = {'xs': sorted(rng.sample(allx, min(len(allx), rng.choice([1, 2, 4])))), 'exc': rng.choice(['ExcA', 'ExcB', 'ExcC', 'KeyError'])}
+            lf[key] = {'xs': sorted(rng.sample(allx, min(len(allx), rng.choice([1, 2, 4])))), 'exc': exc_choice(rng, ['ExcA', 'ExcB', 'ExcC', 'KeyError'])}
     sc = {'tree': tree, 'capacity': rng.choice([1, 2, 3, 4, 6]), 'async': is_async, 'callers': callers,
           'post': [next(nxt) for _ in range(2)]}
     cfg = swarm(rng, racy=0.25, line=0.3, max_time=400.0, id_reuse=rng.choice([0.0, 0.5, 0.95]), max_steps=600_000)
